@@ -25,15 +25,34 @@ var foreignRules = []string{
 
 func genApply(r *wire.Rng, i int, out *wire.Out) {
 	a, b := genCfg(r, true), genCfg(r, true)
-	for _, c := range []*rawCfg{&a, &b} { // no user / group names, no malformed values in this stream
-		c.OutExclude, c.LoCidr = strings.ReplaceAll(c.OutExclude, "*", ""), "127.0.0.1/32"
+	for _, c := range []*rawCfg{&a, &b} { // no malformed values in this stream (names and other loopback CIDRs are fine)
+		c.OutExclude = strings.ReplaceAll(c.OutExclude, "*", "")
+		if !strings.HasPrefix(c.LoCidr, "127.") {
+			c.LoCidr = "127.0.0.1/32"
+		}
 	}
 	a.IPv6 = b.IPv6
-	prior := wire.Pick(r, []string{"clean", "same", "same", "other"})
+	prior := wire.Pick(r, []string{"clean", "same", "same", "other", "superset", "subset"})
+	extra := func(c rawCfg) rawCfg { // the same chains, a few more rules in them
+		c.OutPortsExclude = strings.TrimPrefix(c.OutPortsExclude+",4444", ",")
+		c.OutExclude = strings.TrimPrefix(c.OutExclude+",203.0.113.0/24", ",")
+		return c
+	}
+	switch prior {
+	case "superset":
+		a = extra(b)
+	case "subset":
+		a, b = b, extra(b)
+	}
 	reconcile, cleanup, force := r.Chance(1, 2), r.Chance(1, 4), r.Chance(1, 6)
 	v6 := "ok"
-	if r.Chance(1, 6) {
-		v6 = "fail"
+	switch r.Intn(12) {
+	case 0, 1:
+		v6 = "fail" // ip6tables cannot be detected
+	case 2:
+		v6 = "v4-fail" // iptables cannot be detected
+	case 3:
+		v6 = "save-fail" // iptables-save fails
 	}
 	out.Line("case", strconv.Itoa(i), "apply")
 	out.Line(a.tokens()...)
@@ -65,6 +84,8 @@ func applyCase(a, b rawCfg, t []string) string {
 		return ""
 	}
 	prior, foreign, reconcile, cleanup, force, v6fail := t[1], t[2] == "1", t[3] == "1", t[4] == "1", t[5] == "1", t[6] == "fail"
+	v4fail, savefail := t[6] == "v4-fail", t[6] == "save-fail"
+	drifted := prior == "other" || prior == "superset" || prior == "subset"
 	ca, cb := runReal(a), runReal(b)
 	if ca.status != "ok" || cb.status != "ok" {
 		return ""
@@ -77,13 +98,13 @@ func applyCase(a, b rawCfg, t []string) string {
 	switch prior {
 	case "same":
 		_ = install(sim, foreign, cb)
-	case "other":
+	case "other", "superset", "subset":
 		_ = install(sim, foreign, ca)
 	default:
 		_ = install(sim, foreign, compiled{})
 	}
 	before := sim.canon()
-	sim.failV6 = v6fail
+	sim.failV6, sim.failV4, sim.failIO = v6fail, v4fail, savefail
 	cfg := b.config()
 	cfg.Reconcile, cfg.CleanupOnly, cfg.ForceApply = reconcile, cleanup, force
 	ipt, err := capture.NewIptablesConfigurator(cfg, sim)
@@ -95,12 +116,20 @@ func applyCase(a, b rawCfg, t []string) string {
 		if err != nil {
 			return ""
 		}
+	} else if v4fail {
+		if err == nil {
+			return "FAIL apply:iptables-detection-failure-ignored"
+		}
+		return ""
 	} else if err != nil {
 		return "FAIL apply:configurator-refused"
 	}
 	runErr := ipt.Run()
 	after := sim.canon()
 	left := capture.HasIstioLeftovers(builder.NewIptablesRuleBuilder(nil).GetStateFromSave(sim.v4.save()))
+	for k, v := range capture.HasIstioLeftovers(builder.NewIptablesRuleBuilder(nil).GetStateFromSave(sim.v6.save())) {
+		left["v6:"+k] = v
+	}
 	det := func(s string) string { return strings.ReplaceAll(strings.ReplaceAll(s, " ", "_"), "\n", "|") }
 	class := fmt.Sprintf("prior=%s reconcile=%v cleanup=%v force=%v", prior, reconcile, cleanup, force)
 	// foreign rules are never touched
@@ -119,12 +148,34 @@ func applyCase(a, b rawCfg, t []string) string {
 		strings.Contains(after, "filter/FORWARD") || strings.Contains(after, "filter/OUTPUT: -p") {
 		return "FAIL apply:guardrails-left " + class
 	}
+	if savefail {
+		// iptables-save cannot be read: the state is assumed clean, the rules are applied
+		if !cleanup && prior == "clean" {
+			if runErr != nil || after != want.canon() {
+				return "FAIL apply:save-failure-not-treated-as-clean-state " + class
+			}
+		}
+		return ""
+	}
+	// drift detection (VerifyIptablesState): when the tables hold something else than what this configuration
+	// installs, the run must notice - it issues a restore or cleanup commands, never "nothing to do"
+	if drifted && !cleanup && before != want.canon() {
+		acted := sim.restores > 0
+		for _, c := range sim.cmds {
+			if strings.Contains(c, " -F ") || strings.Contains(c, " -X ") || strings.Contains(c, " -D ") {
+				acted = true
+			}
+		}
+		if !acted {
+			return "FAIL apply:drift-not-detected " + class
+		}
+	}
 	switch {
 	case cleanup:
 		if sim.restores != 0 {
 			return "FAIL apply:cleanup-only-applied-rules " + class
 		}
-		if prior != "other" {
+		if !drifted {
 			if runErr != nil {
 				return "FAIL apply:cleanup-only-error " + class
 			}
@@ -148,7 +199,7 @@ func applyCase(a, b rawCfg, t []string) string {
 		if len(left) == 0 {
 			return "FAIL apply:HasIstioLeftovers-blind " + class
 		}
-	case prior == "other" && reconcile && !force:
+	case drifted && reconcile && !force:
 		_ = before
 		// Recorded, not a clause (outside the property: how rules are applied over another configuration's
 		// residue): cleanup is built from the NEW configuration's rules, so chains only the old one had survive,
